@@ -280,7 +280,8 @@ def sumStep (t : α) (acc : Except Err α) (d : α × α) : Except Err α :=
     | .error e => .error e
     | .ok e => .ok (s + d.1 * e)
 
-/-- `sum(Ia*exp(-La*t) for Ia, La in data)`, left to right from 0 -/
+/-- `sum(Ia*exp(-La*t) for Ia, La in data)`, left to right from 0.  (CPython ≥ 3.12 compensates
+    the rounding of float `sum()`; the same real number, at most an ulp apart at `Float`.) -/
 def sumDecay (data : List (α × α)) (t : α) : Except Err α :=
   data.foldl (sumStep t) (.ok 0)
 
